@@ -129,8 +129,11 @@ def index_clean_elements(res, tree, x, prefixes, m, errors, tag):
                 sub = node[c]
                 n = sub.total_errors
             except Exception as ex:
-                pn = any(e.validator == "propertyNames" or "propertyNames" in list(e.schema_path)
-                         for e in errors if tuple(e.path) == p)
+                # the listed finding: the node keeps the instance of the error filed LAST, and that of a
+                # propertyNames error is a property name.  Any other arrangement that raises is something else.
+                at_node = [e for e in errors if tuple(e.path) == p]
+                pn = bool(at_node) and (at_node[-1].validator == "propertyNames"
+                                        or "propertyNames" in list(at_node[-1].schema_path))
                 res.fail(("index-clean-raises", impl.tname(ex), "node-holds-propertyNames-error" if pn else "plain"),
                          "%s: tree%r[%r] raised %r" % (tag, list(p), c, ex))
                 continue
